@@ -280,6 +280,11 @@ lzma_lz_decoder_init(lzma_next_coder *next, const lzma_allocator *allocator,
 	if (coder->dict.size != alloc_size) {
 		lzma_free(coder->dict.buf, allocator);
 
+		// Forget the old size first: if the allocation below fails,
+		// dict.buf is NULL and a later initialization that happens
+		// to ask for the old size again must not skip the allocation.
+		coder->dict.size = 0;
+
 		// The LZ_DICT_EXTRA bytes at the end of the buffer aren't
 		// included in alloc_size. These extra bytes allow
 		// dict_repeat() to read and write more data than requested.
